@@ -116,6 +116,8 @@ def run_real(c, eff, cap, caps, ops, clock="fine", live=True):
                 elif ek == "R":
                     chart.recall()
                 else:
+                    if a >= 90 and hasattr(chart, "current_state"):
+                        chart.current_state()      # a handler asking the chart for its state (no line, no effect)
                     chart.scribble("SCRIBBLE%d" % a)
         fns = c.build(log, spied=True, counter=hsm._vp_count, effects=effects)
         out = []
